@@ -55,6 +55,15 @@ def cases(ctx):
             body = ".db 1\nlab_t:\n" if taken else (".db 2, 2\nlab_e:\n" if has_else else "")
             twin = f"*={org:#08x}\nk := 3\nz := 0\n{body}end:\n.dl end\n"
             out.append({"kind": f"if:{cond}", "rom": "low", "src": src, "twin_src": twin, "spec": {"t": "twin", "labels": True}})
+    # an operator the evaluator does not implement is an error of the assembly, not a false condition; names that are
+    # only bound when the passes run (`=` symbols, labels) are undefined at expansion time: false, as in the twin
+    for cond in ("k == 3", "k > 0", "k < 9", "1 == 1"):
+        out.append({"kind": f"if-unknown-operator:{cond}", "rom": "low", "spec": {"t": "reject"},
+                    "src": f"*={org:#08x}\nk := 3\n.if {cond} {{\n.db 1\n}} else {{\n.db 2\n}}\n"})
+    for pre, cond in (("zz_late = 1\n", "zz_late"), ("zz_lab:\n", "zz_lab"), ("", "zz_fwd"), ("zz_late = 1\n", "zz_late + 1")):
+        src = f"*={org:#08x}\n{pre}.if {cond} {{\n.db 1\n}} else {{\n.db 2\n}}\nzz_fwd:\nend:\n.dl end\n"
+        out.append({"kind": f"if-late-name:{cond}", "rom": "low", "spec": {"t": "twin", "labels": True}, "src": src,
+                    "twin_src": f"*={org:#08x}\n{pre}.db 2\nzz_fwd:\nend:\n.dl end\n"})
     # a branch that DEFINES something (a macro, a constant): only the selected branch may take effect
     for cond, taken in (("0", False), ("1", True), ("-1", True), ("nope", False), ("k", True), ("z", False)):
         for has_else in (True, False):
